@@ -4,16 +4,31 @@ use alloc::string::String;
 use alloc::vec::Vec;
 use log::warn;
 
-use super::common::Feature;
 use crate::{Error, Hal, Result, queue::VirtQueue, transport::Transport};
+use bitflags::bitflags;
 
 const QUEUE: u16 = 0;
 const QUEUE_SIZE: usize = 16;
 const P9_HEADER_SIZE: usize = 7; // size (4) + type (1) + tag (2)
-const SUPPORTED_FEATURES: Feature = Feature::RING_INDIRECT_DESC
+const SUPPORTED_FEATURES: Feature = Feature::MOUNT_TAG
+    .union(Feature::RING_INDIRECT_DESC)
     .union(Feature::RING_EVENT_IDX)
     .union(Feature::VERSION_1)
     .union(Feature::ACCESS_PLATFORM);
+
+bitflags! {
+    #[derive(Copy, Clone, Debug, Default, Eq, PartialEq)]
+    struct Feature: u64 {
+        /// The mount tag in the device configuration space is valid.
+        const MOUNT_TAG             = 1 << 0;
+
+        // device independent
+        const RING_INDIRECT_DESC    = 1 << 28;
+        const RING_EVENT_IDX        = 1 << 29;
+        const VERSION_1             = 1 << 32;
+        const ACCESS_PLATFORM       = 1 << 33;
+    }
+}
 
 /// Driver for a VirtIO 9p device.
 pub struct VirtIO9p<H: Hal, T: Transport> {
@@ -26,6 +41,10 @@ impl<H: Hal, T: Transport> VirtIO9p<H, T> {
     /// Create a new VirtIO 9p driver.
     pub fn new(mut transport: T) -> Result<Self> {
         let features = transport.begin_init(SUPPORTED_FEATURES);
+        // The mount tag config field may only be used if the feature was negotiated.
+        if !features.contains(Feature::MOUNT_TAG) {
+            return Err(Error::Unsupported);
+        }
 
         let queue = VirtQueue::new(
             &mut transport,
